@@ -1,8 +1,10 @@
 CONSTANT Depths = {}
+CONSTANT SelDepths = {}
 CONSTANT LightDepths = {}
 CONSTANT Sizes = {}
 CONSTANT Cuts = {}
 CONSTANT SafeDepth = 1000
+CONSTANT SafeSel = 3000
 CONSTANT SafeChain = 3000
 CONSTANT HeavyTransports = {}
 CONSTANT Wide = FALSE
